@@ -218,6 +218,19 @@ def failure_returns(body):
                             info["kind"] = "result"
                             info["failure"] = r2["ops"][r2["fields"].index("failure")]
                             info["count"] = r2["ops"][r2["fields"].index("num_inserted_references")]
+        for k_ in ("failure", "count"):
+            # a field filled from a helper's parameter (inlined constructor): what the caller passed
+            o_ = info.get(k_)
+            hops_ = 0
+            while o_ is not None and op_const(o_) is None and op_place(o_) is not None and not op_place(o_)["p"] and hops_ < 6:
+                d_ = single_def(body, op_place(o_)["l"])
+                if d_ and d_[1] == "assign" and d_[2]["rv"]["k"] == "use":
+                    o_ = d_[2]["rv"]["op"]
+                    hops_ += 1
+                else:
+                    break
+            if o_ is not None and op_const(o_) is not None:
+                info[k_] = o_
         out.append(info)
     # a call that writes the return place directly (e.g. `?` on an Option: FromResidual::from_residual)
     for c in body.calls:
